@@ -700,6 +700,72 @@ def sentinel_loops(fnode):
 # ---------------------------------------------------------------------------------------------
 # small canonicalisations
 
+def inline_yield_from(func, depth=2):
+    """`yield from g(a, b)` as a statement, g a generator function of the module without return / try / nested definitions:
+    the body of g in place, its parameters bound to the arguments (a plain argument is substituted, another one is first bound to a
+    fresh local) and its other locals renamed apart.  What the delegating generator yields is exactly what the body yields.
+    Returns (new function node, names of the inlined helpers)."""
+    module = func.module
+    fn = clone(func.node)
+    inlined = []
+    counter = [0]
+
+    def helper(call):
+        if not isinstance(call.func, ast.Name) or call.keywords or any(isinstance(a, ast.Starred) for a in call.args):
+            return None
+        g = module.funcs.get(call.func.id)
+        if g is None or g.node is func.node:
+            return None
+        a = g.node.args
+        if a.vararg or a.kwarg or a.kwonlyargs or a.defaults or len(a.args) != len(call.args) or g.node.decorator_list:
+            return None
+        inner = list(walk_no_nested(g.node))
+        if not any(isinstance(n, (ast.Yield, ast.YieldFrom)) for n in inner):
+            return None
+        if any(isinstance(n, (ast.Return, ast.Try, ast.FunctionDef, ast.Lambda, ast.Global, ast.Nonlocal)) for n in inner if n is not g.node):
+            return None
+        return g
+
+    def rewrite(body, level):
+        out = []
+        for st in body:
+            for fld in ('body', 'orelse', 'finalbody'):
+                if isinstance(getattr(st, fld, None), list) and not isinstance(st, (ast.FunctionDef, ast.ClassDef)):
+                    setattr(st, fld, rewrite(getattr(st, fld), level))
+            for h in getattr(st, 'handlers', []) or []:
+                h.body = rewrite(h.body, level)
+            if isinstance(st, ast.Expr) and isinstance(st.value, ast.YieldFrom) and isinstance(st.value.value, ast.Call) and level > 0:
+                g = helper(st.value.value)
+                if g is not None:
+                    counter[0] += 1
+                    params = [x.arg for x in g.node.args.args]
+                    stored = {n.id for n in walk_no_nested(g.node) if isinstance(n, ast.Name) and isinstance(n.ctx, ast.Store)}
+                    names = {n_: '__%s_%d' % (n_, counter[0]) for n_ in stored}
+                    exprs = {}
+                    for p_, a_ in zip(params, st.value.value.args):
+                        if _simple_arg(a_) and p_ not in stored:
+                            exprs[p_] = a_
+                        else:
+                            names[p_] = '__%s_%d' % (p_, counter[0])
+                            out.append(ast.copy_location(ast.Assign(targets=[ast.Name(id=names[p_], ctx=ast.Store())], value=a_), st))
+                    gb = [b for b in g.node.body if not (isinstance(b, ast.Expr) and isinstance(b.value, ast.Constant))]
+                    new = [ast.copy_location(_Rename(names, exprs).visit(clone(b)), st) for b in gb]
+                    for b in new:
+                        for n in ast.walk(b):
+                            if hasattr(n, 'lineno'):
+                                n.lineno = n.end_lineno = st.lineno
+                    inlined.append(g.qual)
+                    out.extend(rewrite(new, level - 1))
+                    continue
+            out.append(st)
+        return out
+    fn.body = rewrite(fn.body, depth)
+    ast.fix_missing_locations(fn)
+    from .core import set_parents
+    set_parents(fn)
+    return fn, inlined
+
+
 def class_table_nodes(module, scope=''):
     """resolver for unroll_const_loops: `NAME`, `Class.NAME`, `self.NAME`, `cls.NAME` -> the literal tuple/list the name is bound to
     (bound exactly once in its class body / at module level, and never stored to through an attribute anywhere in the module)"""
